@@ -25,17 +25,17 @@ package kcp
 
 import (
 	"bytes"
-	"encoding/json"
-	"os"
-	"os/exec"
-	"path/filepath"
 	"crypto/aes"
 	"crypto/cipher"
 	"crypto/sha1"
 	"encoding/binary"
+	"encoding/json"
 	"fmt"
 	"hash/crc32"
 	"net"
+	"os"
+	"os/exec"
+	"path/filepath"
 	"reflect"
 	"sort"
 	"strings"
@@ -159,8 +159,8 @@ const (
 type frameCipher struct {
 	name  string
 	class int
-	ns    int                          // nonce size on the wire
-	mk    func(key []byte) BlockCrypt  // the package's cipher object (given to the sessions)
+	ns    int                                    // nonce size on the wire
+	mk    func(key []byte) BlockCrypt            // the package's cipher object (given to the sessions)
 	plain func(key, dgram []byte) ([]byte, bool) // INDEPENDENT decryption: nonce|crc|rest, resp. nonce|plaintext
 }
 
@@ -392,14 +392,15 @@ type frameCfg struct {
 	DupPct   int
 	Seed     uint64
 	MaxBytes int
+	Script   int  // 1: big write, wait for its ack, lower the MTU, small writes (a FEC group straddling the change)
 	MtuOps   bool // UDPSession.SetMtu with arbitrary values at random points of the traffic, both sides
 	Flood    bool // a burst of several thousand SendOOB calls in a tight loop in the middle of the transfer
 	Slow     bool // readers start late behind a 4-segment receive window: zero-window probes (WASK/WINS) on the wire
 }
 
 func (c frameCfg) String() string {
-	return fmt.Sprintf("id=%d cipher=%s fec=%d/%d mtu=%s pattern=%d oob=%d clients=%d loss=%d dup=%d slow=%v flood=%v mtuops=%v seed=%d",
-		c.ID, frameCiphers()[c.Cipher].name, c.D, c.P, frameMtuNames[c.MtuKind], c.Pattern, c.OOBMode, c.Clients, c.LossPct, c.DupPct, c.Slow, c.Flood, c.MtuOps, c.Seed)
+	return fmt.Sprintf("id=%d cipher=%s fec=%d/%d mtu=%s pattern=%d oob=%d clients=%d loss=%d dup=%d slow=%v flood=%v mtuops=%v script=%d seed=%d",
+		c.ID, frameCiphers()[c.Cipher].name, c.D, c.P, frameMtuNames[c.MtuKind], c.Pattern, c.OOBMode, c.Clients, c.LossPct, c.DupPct, c.Slow, c.Flood, c.MtuOps, c.Script, c.Seed)
 }
 
 type frameFinding struct {
@@ -414,18 +415,18 @@ type frameDirLog struct { // one sender session's datagrams, for the OCaml drive
 
 // frameResult crosses a process boundary as JSON (every scenario runs in a child process)
 type frameResult struct {
-	Cfg       frameCfg
-	Findings  []frameFinding
-	Dist      map[string]int
-	Monitors  map[string]int
-	Logs      []frameDirLog
-	Retrans   int
-	Parity    int
-	OOBRecv   int
-	Datagrams int
+	Cfg         frameCfg
+	Findings    []frameFinding
+	Dist        map[string]int
+	Monitors    map[string]int
+	Logs        []frameDirLog
+	Retrans     int
+	Parity      int
+	OOBRecv     int
+	Datagrams   int
 	MtuAccepted int
-	Err       string // harness-level failure (not a property violation)
-	Sample    string
+	Err         string // harness-level failure (not a property violation)
+	Sample      string
 }
 
 func (r *frameResult) violate(key, what string, detail any) {
@@ -436,7 +437,10 @@ func (r *frameResult) violate(key, what string, detail any) {
 		}
 	}
 	if n < 5 && len(r.Findings) < 40 {
-		r.Findings = append(r.Findings, frameFinding{key, what, map[string]any{"scenario": r.Cfg.String(), "cfg": r.Cfg, "detail": detail}})
+		cj, _ := json.Marshal(r.Cfg)
+		r.Findings = append(r.Findings, frameFinding{key, what, map[string]any{"scenario": r.Cfg.String(), "cfg": r.Cfg, "detail": detail,
+			"how": "re-run this one scenario: FRAME_CHILD_CFG='" + string(cj) + "' FRAME_CHILD_OUT=/verif/.work/frame/replay.json VERIF_TIER=" + vTier() +
+				" go1.26.8 test -tags verif -overlay <overlay of harness/common_test.go + harness/frame_test.go> -run '^TestVerifFrameChild$' . (in /repo; findings in the JSON written)"}})
 	}
 }
 
@@ -730,7 +734,7 @@ func (s *frameSide) run(rng *vrng, oob, flood, mtuOps bool, res *frameResult, re
 			sess.mu.Lock()
 			km := int(sess.kcp.mtu)
 			sess.mu.Unlock()
-			s.violate("oob-limit", fmt.Sprintf("%s: SendOOB(%d bytes) panicked (GetOOBMaxSize() = %d, core mtu %d, headerSize %d): %s", s.name, size, max, km, sess.headerSize, pn),
+			s.violate("session-panic:SendOOB", fmt.Sprintf("%s: SendOOB(%d bytes) panicked (GetOOBMaxSize() = %d, core mtu %d, headerSize %d): %s", s.name, size, max, km, sess.headerSize, pn),
 				map[string]any{"payloadLen": size, "oobMax": max, "coreMtu": km, "headerSize": sess.headerSize})
 			return
 		}
@@ -750,6 +754,45 @@ func (s *frameSide) run(rng *vrng, oob, flood, mtuOps bool, res *frameResult, re
 			s.mu.Unlock()
 		}
 	}
+	if s.res.Cfg.Script == 1 && s.tag < 0x80 { // the client side drives the script, then the ordinary chunks follow
+		for round := 0; round < 3 && off+int(sess.kcp.mss)+8 < len(data); round++ {
+			s.setMtu(1400)
+			sess.mu.Lock()
+			big := int(sess.kcp.mss)
+			sess.mu.Unlock()
+			if off+big+8 > len(data) {
+				break
+			}
+			sess.Write(data[off : off+big])
+			off += big
+			for w := 0; w < 400; w++ { // until it is acknowledged: the shrink must not be refused
+				sess.mu.Lock()
+				idle := sess.kcp.WaitSnd() == 0
+				sess.mu.Unlock()
+				if idle {
+					break
+				}
+				time.Sleep(5 * time.Millisecond)
+			}
+			s.setMtu(576)
+			for k := 0; k < 8; k++ {
+				sess.Write(data[off : off+1])
+				off++
+				time.Sleep(2 * time.Millisecond)
+			}
+		}
+		// hand the rest to the ordinary loop as one chunk list
+		rest := len(data) - off
+		chunks = nil
+		for rest > 0 {
+			n := 1 + rng.intn(600)
+			if n > rest {
+				n = rest
+			}
+			chunks = append(chunks, n)
+			rest -= n
+		}
+	}
 	for ci, n := range chunks {
 		if ci == floodAt { // "at any rate": far more than the post-processing queue (2048) holds
 			var mine [][]byte
@@ -757,7 +800,7 @@ func (s *frameSide) run(rng *vrng, oob, flood, mtuOps bool, res *frameResult, re
 				p := frameOOBPayload(rng, s.tag, k, 2+rng.intn(10))
 				var err error
 				if pn := frameSafe(func() { err = sess.SendOOB(p) }); pn != "" {
-					s.violate("oob-limit", fmt.Sprintf("%s: SendOOB(%d bytes) panicked during a burst: %s", s.name, len(p), pn), nil)
+					s.violate("session-panic:SendOOB", fmt.Sprintf("%s: SendOOB(%d bytes) panicked during a burst: %s", s.name, len(p), pn), nil)
 					break
 				}
 				if err == nil {
@@ -1210,7 +1253,9 @@ func frameAnalyse(res *frameResult, ciph frameCipher, key []byte, cfg frameCfg, 
 		if d == nil {
 			continue
 		}
-		detail := func() map[string]any { return map[string]any{"index": ci, "from": c.from, "to": c.to, "datagram": hx(c.data)} }
+		detail := func() map[string]any {
+			return map[string]any{"index": ci, "from": c.from, "to": c.to, "datagram": hx(c.data)}
+		}
 		// (4) no two datagrams of a run with a cipher are identical
 		if ciph.class != frameClassNil {
 			res.Monitors["datagram-distinct"]++
@@ -1257,6 +1302,20 @@ func frameAnalyse(res *frameResult, ciph frameCipher, key []byte, cfg frameCfg, 
 			}
 			if len(c.data) > allowed {
 				key := "session-datagram-over-mtu"
+				// a parity packet is as long as the longest data packet of its group; if the MTU was
+				// lowered while the group was open it can exceed the new value although it would
+				// have honoured an earlier one - reported under its own stable key
+				if kind == "parity" {
+					ever := IKCP_MTU_DEF
+					for _, ev := range d.events {
+						if ev.Accepted && ev.CapIndex <= ci && ev.Bound > ever {
+							ever = ev.Bound
+						}
+					}
+					if len(c.data) <= ever {
+						key = "session-parity-over-mtu-after-shrink"
+					}
+				}
 				res.violate(key, fmt.Sprintf("%s handed a %s datagram of %d bytes to the PacketConn while its configured MTU is %d (cipher %s, FEC %d/%d)", d.name, kind, len(c.data), allowed, ciph.name, cfg.D, cfg.P),
 					map[string]any{"index": ci, "len": len(c.data), "mtu": allowed, "kind": kind, "setmtu_calls": d.events})
 			}
@@ -1609,6 +1668,10 @@ func frameScenarios(rng *vrng, prop string) []frameCfg {
 				}
 			}
 		}
+		for i := 0; prop == "C10sess" && i < 8; i++ { // directed: a FEC group straddling an accepted, smaller MTU
+			f := frameFecs[1+i%4]
+			add(frameCfg{Cipher: rng.intn(nc), D: f[0], P: f[1], MtuKind: 2, Pattern: 2, OOBMode: 1, Script: 1})
+		}
 		for i := 0; i < 40; i++ { // extra random cells, all patterns
 			l, d := lossOf()
 			f := frameFecs[rng.intn(len(frameFecs))]
@@ -1640,7 +1703,10 @@ func frameScenarios(rng *vrng, prop string) []frameCfg {
 		}
 		c.Slow = i%15 == 7
 		c.Flood = prop == "C19" && i%12 == 3
-		if prop == "C10sess" {
+		if prop == "C10sess" && i >= n-4 { // directed: a FEC group straddling an accepted, smaller MTU
+			f := frameFecs[1+i%4]
+			c = frameCfg{Cipher: c.Cipher, D: f[0], P: f[1], MtuKind: 2, Pattern: 2, OOBMode: 1, Script: 1}
+		} else if prop == "C10sess" {
 			c.MtuOps = i%4 != 3
 			if c.OOBMode == 0 && i%3 != 0 {
 				c.OOBMode = 1
@@ -1734,6 +1800,16 @@ func TestVerifFrameChild(t *testing.T) {
 	os.Rename(out+".tmp", out)
 }
 
+// at most three reports per key, so that one noisy key cannot crowd the others out of the report
+var frameKeyCount = map[string]int{}
+
+func frameReport(rep *vreport, f frameFinding) {
+	frameKeyCount[rep.Property+"/"+f.Key]++
+	if frameKeyCount[rep.Property+"/"+f.Key] <= 3 {
+		rep.violate(f.Key, f.What, f.Replay)
+	}
+}
+
 func frameWanted(keys map[string]bool, k string) bool {
 	return keys[k] || strings.HasPrefix(k, "session-panic:")
 }
@@ -1775,7 +1851,7 @@ func frameRunAll(t *testing.T, prop string, keys map[string]bool) {
 			if f.Key == "harness" {
 				t.Errorf("encoder pair: %s", f.What)
 			} else if frameWanted(keys, f.Key) {
-				rep.violate(f.Key, f.What, f.Replay)
+				frameReport(rep, f)
 			}
 		}
 	}
@@ -1822,7 +1898,7 @@ func frameRunAll(t *testing.T, prop string, keys map[string]bool) {
 		rep.Distribution["setmtu-accepted-calls"] += r.MtuAccepted
 		for _, f := range r.Findings {
 			if frameWanted(keys, f.Key) {
-				rep.violate(f.Key, f.What, f.Replay)
+				frameReport(rep, f)
 			} else {
 				rep.Distribution["other-property-finding-"+f.Key]++
 			}
@@ -1859,7 +1935,8 @@ func TestVerifC09(t *testing.T) {
 // UDPSession.SetMtu at random points of the traffic.
 func TestVerifC10Sess(t *testing.T) {
 	frameRunAll(t, "C10sess", map[string]bool{
-		"session-datagram-over-mtu": true, "session-datagram-empty": true, "session-setmtu-rule": true,
+		"session-datagram-over-mtu": true, "session-parity-over-mtu-after-shrink": true,
+		"session-datagram-empty": true, "session-setmtu-rule": true,
 		"stream-stalled": true, "stream-corrupted": true, "oob-disturbs-stream": true,
 	})
 }
